@@ -143,6 +143,55 @@ def _parse(s, shape, dtype="float32"):
     return np.array(vals, dtype=dtype).reshape(shape)
 
 
+# ---------------------------------------------------------------- the same value in another spelling
+_LAYOUTS = ["c", "c", "f", "strided", "readonly", "swapped", "f64"]
+
+
+def _spell(a, layout):
+    """The same array values as C-/F-ordered, strided view, read-only, byte-swapped or float64 array."""
+    import numpy as np
+    a = np.asarray(a)
+    if layout == "f":
+        return np.asfortranarray(a)
+    if layout == "strided":
+        big = np.zeros(a.shape[:-1] + (a.shape[-1] * 2,), dtype=a.dtype)
+        big[..., ::2] = a
+        return big[..., ::2]
+    if layout == "readonly":
+        b = a.copy()
+        b.setflags(write=False)
+        return b
+    if layout == "swapped":
+        return a.astype(a.dtype.newbyteorder())
+    if layout == "f64" and a.dtype.kind == "f":
+        return a.astype(np.float64)
+    return a
+
+
+def _spell_scalar(x, how):
+    import numpy as np
+    return {"py": lambda v: v, "i8": np.int8, "u8": np.uint8, "i16": np.int16, "i32": np.int32, "i64": np.int64,
+            "u64": np.uint64, "f16": np.float16, "f32": np.float32, "f64": np.float64}[how](x)
+
+
+def _snapshot(obj):
+    """Content snapshot of an argument (ndarray / AtomArray / AtomArrayStack / list / None)."""
+    import numpy as np
+    if obj is None:
+        return None
+    if isinstance(obj, (list, tuple)):
+        return ("seq", type(obj), list(obj))
+    if isinstance(obj, np.ndarray):
+        return ("nd", obj.dtype.str, obj.shape, obj.tobytes())
+    return ("atoms", type(obj), obj.coord.dtype.str, obj.coord.shape, obj.coord.tobytes(),
+            tuple(sorted((c, obj.get_annotation(c).tobytes()) for c in obj.get_annotation_categories())))
+
+
+def _t_snapshot(T):
+    return tuple((getattr(T, a).dtype.str, getattr(T, a).shape, getattr(T, a).tobytes())
+                 for a in ("center_translation", "rotation", "target_translation"))
+
+
 # ---------------------------------------------------------------- translator (Gen)
 def _find_func(tree, name, cls=None):
     for node in ast.walk(tree):
@@ -465,17 +514,18 @@ def _err(e):
     return "ERR:" + type(e).__name__
 
 
-def _coords(dim, m, n, s):
+def _coords(dim, m, n, s, layout="c"):
     a = _parse(s, (m, n, 3))
-    return a[0] if dim == "2" else a
+    return _spell(a[0] if dim == "2" else a, layout)
 
 
-def _transform(w, dt):
+def _transform(w, dt, layout="c"):
     import numpy as np
     S = _mod()
     k, c, m, r, l, t = w
     k, m, l = int(k), int(m), int(l)
-    return S.AffineTransformation(_parse(c, (k, 3), dt[0]), _parse(r, (m, 3, 3), dt[1]), _parse(t, (l, 3), dt[2]))
+    return S.AffineTransformation(_spell(_parse(c, (k, 3), dt[0]), layout), _spell(_parse(r, (m, 3, 3), dt[1]), layout),
+                                  _spell(_parse(t, (l, 3), dt[2]), layout))
 
 
 def run_impl(case):
@@ -483,12 +533,13 @@ def run_impl(case):
     S = _mod()
     out = []
     dt = case.get("dt", ["float32", "float32", "float32"])
+    lay = case.get("layout", "c")           # same values, another memory layout / byte order / width
     for op in case["ops"]:
         w = op.split()
         try:
             if w[0] == "apply":
-                T = _transform(w[1:7], dt)
-                X = _coords(w[7], int(w[8]), int(w[9]), w[10])
+                T = _transform(w[1:7], dt, lay)
+                X = _coords(w[7], int(w[8]), int(w[9]), w[10], lay)
                 # applied twice to the SAME object: the model is pure, so the second result must equal the first
                 if case.get("atoms"):
                     X = _as_atoms(X)
@@ -498,7 +549,7 @@ def run_impl(case):
                     T.apply(X)
                     out.append("ok " + _flat(T.apply(X)))
             elif w[0] == "matrix":
-                out.append("ok " + _flat(_transform(w[1:7], dt).as_matrix()))
+                out.append("ok " + _flat(_transform(w[1:7], dt, lay).as_matrix()))
             elif w[0] == "rot":
                 mf, mm, n = int(w[1]), int(w[2]), int(w[3])
                 F, M = _parse(w[4], (mf, n, 3)), _parse(w[5], (mm, n, 3))
@@ -510,7 +561,11 @@ def run_impl(case):
             elif w[0] == "sup":
                 mask = None if w[1] == "-" else np.array([ch == "1" for ch in w[1]])
                 n = int(w[6])
-                F, M = _coords(w[2], int(w[3]), n, w[7]), _coords(w[4], int(w[5]), n, w[8])
+                F, M = _coords(w[2], int(w[3]), n, w[7], lay), _coords(w[4], int(w[5]), n, w[8], lay)
+                if mask is not None and case.get("mask_as") == "list":
+                    mask = mask.tolist()
+                elif mask is not None and case.get("mask_as") == "readonly":
+                    mask.setflags(write=False)
                 pairs = _parse(w[10], (int(w[9]), 2, 3, 3))
                 if case.get("atoms"):
                     F, M = _as_atoms(F), _as_atoms(M)
@@ -520,13 +575,25 @@ def run_impl(case):
                 out.append(f"ok fit={_flat(fit)} c={_flat(T.center_translation)} R={_flat(T.rotation)} t={_flat(T.target_translation)}")
             elif w[0] == "woo":
                 n = int(w[5])
-                F, M = _coords(w[1], int(w[2]), n, w[6]), _coords(w[3], int(w[4]), n, w[7])
+                F, M = _coords(w[1], int(w[2]), n, w[6], lay), _coords(w[3], int(w[4]), n, w[7], lay)
                 if case.get("atoms"):
                     F, M = _as_atoms(F), _as_atoms(M)
+                sc = case.get("scalars", ["py", "py", "py", "tuple"])     # the same numbers as NumPy scalars
+                minA = _spell_scalar(int(w[8]), sc[0]) if int(w[8]) >= 0 else int(w[8])
+                maxI = _spell_scalar(int(w[9]), sc[1]) if int(w[9]) >= 0 else int(w[9])
+                qs = [_spell_scalar(float(Fraction(w[10])), sc[2] if sc[2][0] == "f" else "py"),
+                      _spell_scalar(float(Fraction(w[11])), sc[2] if sc[2][0] == "f" else "py")]
+                qs = {"tuple": tuple(qs), "list": qs, "ndarray": np.array(qs)}[sc[3]]
+                thr = _spell_scalar(float(Fraction(w[12])), sc[2] if sc[2][0] == "f" else "py")
+                snap = (_snapshot(F), _snapshot(M))
                 with _patched(superimpose=_identity_sup):
-                    _, _, anchors = S.superimpose_without_outliers(
-                        F, M, min_anchors=int(w[8]), max_iterations=int(w[9]),
-                        quantiles=(float(Fraction(w[10])), float(Fraction(w[11]))), outlier_threshold=float(Fraction(w[12])))
+                    try:
+                        _, _, anchors = S.superimpose_without_outliers(
+                            F, M, min_anchors=minA, max_iterations=maxI, quantiles=qs, outlier_threshold=thr)
+                    finally:
+                        if (_snapshot(F), _snapshot(M)) != snap:
+                            out.append("INPUT-MODIFIED")
+                            continue
                 out.append("ok " + (",".join(str(int(i)) for i in anchors) if len(anchors) else "_"))
             elif w[0] == "hom":
                 F = _as_atoms(_coords(w[1], int(w[2]), int(w[3]), w[7]))
@@ -673,7 +740,7 @@ def _gen_apply(rng):
         c = [[_small(rng) + Fraction(rng.choice([1, 3, 5, 7]), rng.choice([2, 4, 8])) for _ in range(3)] for _ in range(k)]
         t = [[_small(rng) + Fraction(rng.choice([1, 3, 5, 7]), rng.choice([2, 4, 8])) for _ in range(3)] for _ in range(ll)]
         head = f"{k} {_toks(_flatten(c))} {m} {_toks(_flatten(R))} {ll} {_toks(_flatten(t))}"
-    return {"kind": "apply", "dt": dts, "atoms": rng.random() < 0.25,
+    return {"kind": "apply", "dt": dts, "atoms": rng.random() < 0.25, "layout": rng.choice(_LAYOUTS),
             "ops": [f"apply {head} {dim} {mx} {n} {_toks(_flatten(X))}", f"matrix {head}"]}
 
 
@@ -718,7 +785,8 @@ def _gen_sup(rng):
     if mask is not None and rng.random() < 0.06:
         mstr += "1"                          # malformed: mask longer than the structure
     npairs, ps = _pairs(rng)
-    return {"kind": "sup", "atoms": rng.random() < 0.3,
+    return {"kind": "sup", "atoms": rng.random() < 0.3, "layout": rng.choice(_LAYOUTS),
+            "mask_as": rng.choice(["ndarray", "ndarray", "list", "readonly"]),
             "ops": [f"sup {mstr} {dimF} {mf} {dimM} {mm} {n} {_toks(_flatten(F))} {_toks(_flatten(M))} {npairs} {_toks(_flatten(ps))}"]}
 
 
@@ -770,7 +838,9 @@ def _gen_woo(rng):
     n = rng.choice([1, 2, 3, 4, 5, 6, 8, 9, 12])
     F, M = _displaced(rng, n, mf, mm)
     minA, maxI, q, thr = _cfg(rng, rng.random() < 0.06)
-    return {"kind": "woo", "atoms": rng.random() < 0.3,
+    return {"kind": "woo", "atoms": rng.random() < 0.3, "layout": rng.choice(_LAYOUTS),
+            "scalars": [rng.choice(["py", "py", "i8", "u8", "i16", "i64", "u64"]), rng.choice(["py", "py", "i8", "u8", "i32", "i64"]),
+                        rng.choice(["py", "py", "f16", "f32", "f64"]), rng.choice(["tuple", "tuple", "list", "ndarray"])],
             "ops": [f"woo {dimF} {mf} {dimM} {mm} {n} {_toks(_flatten(F))} {_toks(_flatten(M))} {minA} {maxI} {q[0]} {q[1]} {thr}"]}
 
 
@@ -829,7 +899,7 @@ def _gen_homc(rng, force_multichain=False):
         for i, ch in enumerate(letters):
             step = np.array([rng.gauss(0, 1) for _ in range(3)])
             pos = pos + step * (3.8 / (np.linalg.norm(step) or 1.0))
-            res.append({"chain": chr(ord("A") + ci), "res_id": i + 1,
+            res.append({"chain": chr(ord("A") + ci), "res_id": i + 1, "letter": ch,
                         "res_name": ch if nuc else ProteinSequence.convert_letter_1to3(ch), "ca": pos.copy()})
         chains.append(res)
 
@@ -841,11 +911,16 @@ def _gen_homc(rng, force_multichain=False):
             present = [True] * L
             r = rng.random()
             dmax = max(1, min(5, L // 5))      # short deletions: a sequence method cannot pair residues uniquely
+            # with terminal_penalty=True terminal gaps are not free: the first/last resolved residue may pair equally
+            # well with an identical residue inside the missing stretch (the gap splits at no cost).  Such deletions are
+            # ambiguous for any sequence method and are not generated: the resolved neighbour must not recur in the stretch
             if r < 0.35:                       # when the remaining overlap is short / low-complexity (not a code defect)
-                for i in range(rng.randint(1, dmax)):          # N-terminal residues not resolved
+                ds = [d for d in range(1, dmax + 1) if res[d]["letter"] not in [x["letter"] for x in res[:d]]]
+                for i in range(rng.choice(ds) if ds else 0):   # N-terminal residues not resolved
                     present[i] = False
             elif r < 0.55:
-                for i in range(rng.randint(1, dmax)):          # C-terminal
+                ds = [d for d in range(1, dmax + 1) if res[L - 1 - d]["letter"] not in [x["letter"] for x in res[L - d:]]]
+                for i in range(rng.choice(ds) if ds else 0):   # C-terminal
                     present[L - 1 - i] = False
             elif r < 0.65 and L >= 20:
                 i0 = rng.randint(8, L - 10)                    # one internal residue, long flanks
@@ -886,8 +961,22 @@ def _gen_homc(rng, force_multichain=False):
     fixed = {"coord": fco.astype(np.float32).tolist(), "atom_name": fn, "res_name": frn, "chain_id": fch, "res_id": fid}
     mobile = {"coord": mob_coord.astype(np.float32).tolist(), "atom_name": list(mn), "res_name": list(mrn),
               "chain_id": list(mch), "res_id": list(mid)}
+    # every optional parameter of superimpose_homologs (and those forwarded to superimpose_without_outliers) non-default
+    kw = {}
+    if rng.random() < 0.5:
+        kw["substitution_matrix"] = rng.choice([("NUC" if nuc else "BLOSUM62"), ("NUC" if nuc else "BLOSUM50"), "object"])
+    if rng.random() < 0.4:
+        kw["gap_penalty"] = rng.choice([-8, -12, [-10, -1], [-12, -2]])
+    if rng.random() < 0.3:
+        kw["terminal_penalty"] = True
+    if rng.random() < 0.4:
+        kw["max_iterations"] = rng.choice([1, 2, 5])
+    if rng.random() < 0.3:
+        kw["quantiles"] = rng.choice([[0.1, 0.9], [0.75, 0.25]])
+    if rng.random() < 0.3:
+        kw["outlier_threshold"] = rng.choice([3.0, 0.5])
     case = {"kind": "homc", "fixed_atoms": fixed, "mobile_atoms": mobile, "nuc": nuc,
-            "min_anchors": rng.choice([3, 3, 3, 1, 5]), "n_chains": n_chains}
+            "min_anchors": rng.choice([3, 3, 3, 1, 5]), "n_chains": n_chains, "hom_kwargs": kw}
     # the op line: chain lengths and per-chain local anchors from the real code on single chain pairs
     try:
         F, M = _atoms_from(fixed), _atoms_from(mobile)
@@ -1003,6 +1092,8 @@ def _gen_fit(rng, search=False):
             "scale": scale, "dtype": rng.choice(["float32", "float32", "float64"]), "tiny": tiny_angle if tiny else None,
             "fixed": fixed32.tolist(), "mobile": mobile32.tolist(), "mask": mask,
             "atoms": rng.random() < 0.3, "pseed": rng.randint(0, 2**31)}
+    case["layout"] = rng.choice(_LAYOUTS)
+    case["mask_as"] = rng.choice(["ndarray", "ndarray", "list", "readonly"])
     if mask is not None and not all(mask):
         # atoms OUTSIDE the mask must not matter: unresolved atoms often carry NaN / inf / placeholder coordinates
         outside = [i for i, b in enumerate(mask) if not b]
@@ -1031,7 +1122,28 @@ def _gen_woo_float(rng):
     return {"kind": "woof", "fixed": fixed.astype(np.float32).tolist(), "mobile": mobile.astype(np.float32).tolist(),
             "min_anchors": rng.choice([1, 3, 3, 3, 5, n, n + 2]), "max_iterations": rng.choice([1, 2, 3, 10, 10]),
             "quantiles": rng.choice([[0.25, 0.75], [0.25, 0.75], [0.75, 0.25], [0.1, 0.9], [0.0, 0.5]]),
-            "threshold": rng.choice([1.5, 1.5, 0.0, 3.0, 0.5]), "atoms": rng.random() < 0.3, "combo": combo}
+            "threshold": rng.choice([1.5, 1.5, 0.0, 3.0, 0.5]), "atoms": rng.random() < 0.3, "combo": combo,
+            "scalars": [rng.choice(["py", "py", "i8", "u8", "i64", "u64"]), rng.choice(["py", "py", "u8", "i32", "i64"]),
+                        rng.choice(["py", "py", "f16", "f32", "f64"]), rng.choice(["tuple", "list", "ndarray"])]}
+
+
+def _gen_refuse(rng):
+    """Calls that must be refused; afterwards every argument equals its snapshot (oracle `_oracle_refuse`)."""
+    n = rng.choice([1, 2, 3, 5, 8])
+    what = rng.choice(["mask-length", "model-counts", "stack-onto-single", "woo-iterations", "woo-quantiles",
+                       "rmsd-reference", "mask-length", "apply-broadcast"])
+    return {"kind": "refuse", "what": what, "n": n, "m": rng.choice([2, 3]), "atoms": rng.random() < 0.4,
+            "seed": rng.randint(0, 2**31), "layout": rng.choice(_LAYOUTS)}
+
+
+def _gen_rigidapi(rng):
+    """A rigid copy produced by the public functions of structure/transform.py with variously spelled arguments."""
+    return {"kind": "rigidapi", "fn": rng.choice(["translate", "rotate", "rotate_centered", "rotate_about_axis",
+                                                  "rotate_about_axis+support", "orient_principal_components", "align_vectors",
+                                                  "align_vectors+positions", "chain"]),
+            "n": rng.choice([1, 2, 3, 4, 8, 20]), "stack": rng.choice([0, 0, 2]), "atoms": rng.random() < 0.4,
+            "spell": rng.choice(["list", "tuple", "ndarray", "f32", "i64"]), "scale": rng.choice([0.1, 1, 1, 10, 100]),
+            "seed": rng.randint(0, 2**31)}
 
 
 def cases(rng, tier):
@@ -1052,6 +1164,10 @@ def cases(rng, tier):
         yield _gen_fit(rng)
     for _ in range(120 * k):
         yield _gen_woo_float(rng)
+    for _ in range(40 * k):
+        yield _gen_refuse(rng)
+    for _ in range(80 * k):
+        yield _gen_rigidapi(rng)
 
 
 def corpus():
@@ -1228,6 +1344,41 @@ def _check_freshness(T, X, tag, v):
         v.append((f"C16/{tag}/apply-modifies-input", "apply()/as_matrix() modified the input coordinates"))
     if v:
         return
+    # one object reused with inputs of other sizes / kinds and a refused call in between == a fresh object each time
+    X3 = Xc0 if Xc0.ndim == 3 else Xc0[None]
+    m0 = T2.rotation.shape[0]
+    fresh = lambda: S.AffineTransformation(np.array(T.center_translation, copy=True), np.array(T.rotation, copy=True),   # noqa: E731
+                                           np.array(T.target_translation, copy=True))
+    others = [np.concatenate([X3, X3[:, ::-1] * 2 + 1], axis=1), X3[:, :1], X3[:, :0]]
+    if m0 == 1:
+        others = others + [others[0][0]]                 # 2-d input on a 1-model transformation
+    tsnap = _t_snapshot(T2)
+    for Z in others:
+        try:
+            a, b = T2.apply(Z.copy()), fresh().apply(Z.copy())
+        except Exception as e:  # noqa: BLE001
+            v.append((f"C16/{tag}/history-unexpected-exception", f"{type(e).__name__}: {e} for coordinates of shape {Z.shape}"))
+            return
+        if not same(np.asarray(a), np.asarray(b)):
+            v.append((f"C16/{tag}/state-across-calls", f"apply() on shape {Z.shape} after other calls on the same object differs from a fresh object"))
+            return
+        bad = np.zeros((m0 + 1,) + Z.shape[-2:], dtype=np.float32)      # wrong model count: must be refused ...
+        bsnap = bad.tobytes()
+        try:
+            T2.apply(bad)
+            v.append((f"C16/{tag}/model-count-mismatch-accepted", f"{m0 + 1} models applied to {m0} transformations"))
+            return
+        except IndexError:
+            pass
+        except Exception as e:  # noqa: BLE001
+            v.append((f"C16/{tag}/model-count-mismatch-wrong-error", f"{type(e).__name__} instead of IndexError"))
+            return
+        if _t_snapshot(T2) != tsnap or bad.tobytes() != bsnap:   # ... and change nothing
+            v.append((f"C16/{tag}/refused-call-changed-state", "a refused apply() modified the transformation or its argument"))
+            return
+    if not same(np.asarray(T2.as_matrix()), M1):
+        v.append((f"C16/{tag}/state-across-calls", "as_matrix() after apply() calls of other sizes differs from the first result"))
+        return
     # change each public attribute (re-assignment and in-place edit): as_matrix() must follow, i.e. still equal apply()
     m = T2.rotation.shape[0]
     perm = np.array([[0, 0, 1], [1, 0, 0], [0, 1, 0]], dtype=T2.rotation.dtype)
@@ -1305,7 +1456,16 @@ def _oracle_fit(case):
     mobile = np.array(case["mobile"], dtype=np.float32)
     mask = None if case.get("mask") is None else np.array(case["mask"], dtype=bool)
     dt = case.get("dtype", "float32")
-    F, M = (fixed.astype(dt), mobile.astype(dt)) if not case.get("atoms") else (_as_atoms(fixed), _as_atoms(mobile))
+    lay = case.get("layout", "c")
+    F, M = (_spell(fixed.astype(dt), lay), _spell(mobile.astype(dt), lay)) if not case.get("atoms") \
+        else (_as_atoms(fixed), _as_atoms(mobile))
+    mask_arg = mask
+    if mask is not None and case.get("mask_as") == "list":
+        mask_arg = mask.tolist()
+    elif mask is not None and case.get("mask_as") == "readonly":
+        mask_arg = mask.copy()
+        mask_arg.setflags(write=False)
+    snap = (_snapshot(F), _snapshot(M), _snapshot(mask_arg))
     f3 = fixed if fixed.ndim == 3 else fixed[None]
     m3 = mobile if mobile.ndim == 3 else mobile[None]
     expect_reject = m3.shape[0] == 1 and f3.shape[0] > 1
@@ -1316,16 +1476,35 @@ def _oracle_fit(case):
     svd_log = []
     try:
         with _patched(np=_SpyNp(svd_log)):
-            fitted, T = S.superimpose(F, M, atom_mask=mask)
+            fitted, T = S.superimpose(F, M, atom_mask=mask_arg)
     except IndexError as e:
         if expect_reject:
-            return v          # one mobile model onto several fixed models: refused loudly (documented in notes)
+            # one mobile model onto several fixed models: refused loudly (documented in notes) — and nothing changed
+            if (_snapshot(F), _snapshot(M), _snapshot(mask_arg)) != snap:
+                return [("C16/superimpose/refused-call-modified-arguments", "IndexError raised, but fixed/mobile/mask were modified")]
+            return v
         return [("C16/superimpose/unexpected-exception", f"IndexError: {e}")]
     except Exception as e:  # noqa: BLE001
         return [("C16/superimpose/unexpected-exception", f"{type(e).__name__}: {e}")]
     if expect_reject:
         return [("C16/superimpose/broadcast-accepted", "fixed stack + single mobile model no longer raises; oracle needs review")]
+    if (_snapshot(F), _snapshot(M), _snapshot(mask_arg)) != snap:
+        return [("C16/superimpose/arguments-modified", f"superimpose() modified fixed, mobile or atom_mask (layout {lay})")]
     fc = fitted if isinstance(fitted, np.ndarray) else fitted.coord
+    # the public rmsd() agrees with an independent float64 computation (reference must be a single model)
+    if f3.shape[0] == 1:
+        import biotite.structure as struc
+        ref = F if (case.get("atoms") and fixed.ndim == 2) else (fixed if fixed.ndim == 2 else fixed[0])
+        try:
+            r_api = np.atleast_1d(struc.rmsd(ref, fitted))
+            fit3_ = fc if fc.ndim == 3 else fc[None]
+            r_ind = np.array([_rmsd64(f3[0], fit3_[k]) for k in range(fit3_.shape[0])])
+            if r_api.shape != r_ind.shape or np.abs(r_api - r_ind).max() > 2 * _tol(f3, fit3_):
+                v.append(("C16/rmsd/differs-from-definition", f"rmsd() = {r_api.tolist()[:4]} but sqrt(mean |d|^2) = {r_ind.tolist()[:4]}"))
+        except Exception as e:  # noqa: BLE001
+            v.append(("C16/rmsd/unexpected-exception", f"{type(e).__name__}: {e}"))
+        if v:
+            return v
     if type(fitted) is not type(M) or fc.shape != mobile.shape:
         v.append(("C16/superimpose/result-shape", f"fitted {type(fitted).__name__}{fc.shape} for mobile {type(M).__name__}{mobile.shape}"))
         return v
@@ -1432,6 +1611,10 @@ def _oracle_woo(case):
     F, M = (fixed, mobile) if not case.get("atoms") else (_as_atoms(fixed), _as_atoms(mobile))
     n = fixed.shape[-2]
     minA, maxI = case["min_anchors"], case["max_iterations"]
+    sc = case.get("scalars", ["py", "py", "py", "tuple"])
+    qs = [_spell_scalar(q, sc[2]) for q in case["quantiles"]]
+    qs = {"tuple": tuple(qs), "list": qs, "ndarray": np.array(qs)}[sc[3]]
+    snap = (_snapshot(F), _snapshot(M))
     calls = []
     real = S.superimpose
 
@@ -1442,10 +1625,12 @@ def _oracle_woo(case):
     try:
         with _patched(superimpose=spy):
             fitted, T, anchors = S.superimpose_without_outliers(
-                F, M, min_anchors=minA, max_iterations=maxI, quantiles=tuple(case["quantiles"]),
-                outlier_threshold=case["threshold"])
+                F, M, min_anchors=_spell_scalar(minA, sc[0]), max_iterations=_spell_scalar(maxI, sc[1]), quantiles=qs,
+                outlier_threshold=_spell_scalar(case["threshold"], sc[2]))
     except Exception as e:  # noqa: BLE001
-        return [("C16/without_outliers/unexpected-exception", f"{type(e).__name__}: {e}")]
+        return [("C16/without_outliers/unexpected-exception", f"{type(e).__name__}: {e} (scalars as {sc})")]
+    if (_snapshot(F), _snapshot(M)) != snap:
+        return [("C16/without_outliers/arguments-modified", "superimpose_without_outliers() modified fixed or mobile")]
     anchors = [int(i) for i in anchors]
     fc = fitted if isinstance(fitted, np.ndarray) else fitted.coord
     if sorted(set(anchors)) != anchors or (anchors and (anchors[0] < 0 or anchors[-1] >= n)):
@@ -1505,7 +1690,19 @@ def _oracle_homc(case):
     F, M = _atoms_from(case["fixed_atoms"]), _atoms_from(case["mobile_atoms"])
     fch, mch = sorted(set(F.chain_id.tolist())), sorted(set(M.chain_id.tolist()))
     try:
-        fitted, T, fi, mi = S.superimpose_homologs(F, M, min_anchors=case.get("min_anchors", 3))
+        kw = dict(case.get("hom_kwargs") or {})
+        if isinstance(kw.get("gap_penalty"), list):
+            kw["gap_penalty"] = tuple(kw["gap_penalty"])
+        if kw.get("substitution_matrix") == "object":
+            from biotite.sequence.align.matrix import SubstitutionMatrix
+            kw["substitution_matrix"] = (SubstitutionMatrix.std_nucleotide_matrix() if case.get("nuc")
+                                         else SubstitutionMatrix.std_protein_matrix())
+        if "quantiles" in kw:
+            kw["quantiles"] = tuple(kw["quantiles"])
+        snap = (_snapshot(F), _snapshot(M))
+        fitted, T, fi, mi = S.superimpose_homologs(F, M, min_anchors=case.get("min_anchors", 3), **kw)
+        if (_snapshot(F), _snapshot(M)) != snap:
+            return [("C16/homologs/arguments-modified", "superimpose_homologs() modified fixed or mobile")]
     except ValueError as e:
         if fch != mch:
             return []                 # different number of chains: refused (zip strict)
@@ -1556,6 +1753,129 @@ def _oracle_homc(case):
     return v
 
 
+def _oracle_refuse(case):
+    import random
+    import numpy as np
+    import biotite.structure as struc
+    S = _mod()
+    r = random.Random(case["seed"])
+    n, m, what = case["n"], case["m"], case["what"]
+    g = lambda *sh: np.array([r.gauss(0, 3) for _ in range(int(np.prod(sh)))], dtype=np.float32).reshape(sh)   # noqa: E731
+    wrap = (lambda a: _as_atoms(a)) if case.get("atoms") else (lambda a: _spell(a, case.get("layout", "c")))
+    T = None
+    if what == "mask-length":
+        args = [wrap(g(n, 3)), wrap(g(n, 3)), np.array([True] * (n + r.choice([1, 2])))]
+        call, exp = (lambda: S.superimpose(args[0], args[1], atom_mask=args[2])), (IndexError,)
+    elif what == "model-counts":
+        args = [wrap(g(m, n, 3)), wrap(g(m + 1, n, 3))]
+        call, exp = (lambda: S.superimpose(args[0], args[1])), (ValueError, IndexError)
+    elif what == "stack-onto-single":
+        args = [wrap(g(m, n, 3)), wrap(g(n, 3))]
+        call, exp = (lambda: S.superimpose(args[0], args[1])), (IndexError,)
+    elif what == "woo-iterations":
+        args = [wrap(g(n, 3)), wrap(g(n, 3))]
+        call, exp = (lambda: S.superimpose_without_outliers(args[0], args[1], max_iterations=r.choice([0, -1]))), (ValueError,)
+    elif what == "woo-quantiles":
+        args = [wrap(g(n, 3)), wrap(g(n, 3))]
+        call, exp = (lambda: S.superimpose_without_outliers(args[0], args[1], quantiles=r.choice([(-0.25, 0.75), (0.25, 1.5)]))), (ValueError,)
+    elif what == "rmsd-reference":
+        args = [wrap(g(m, n, 3)), wrap(g(m, n, 3))]
+        call, exp = (lambda: struc.rmsd(args[0], args[1])), (TypeError,)
+    else:   # apply-broadcast: 2 centre translations for 3 rotations
+        T = S.AffineTransformation(g(2, 3), np.stack([np.eye(3, dtype=np.float32)] * 3), g(1, 3))
+        args = [wrap(g(3, n, 3))]
+        call, exp = (lambda: T.apply(args[0])), (ValueError,)
+    snap = [_snapshot(a) for a in args]
+    tsnap = _t_snapshot(T) if T is not None else None
+    try:
+        call()
+        return [(f"C16/refuse/{what}/accepted", f"the malformed call `{what}` (n={n}, m={m}) was not refused")]
+    except exp:
+        pass
+    except Exception as e:  # noqa: BLE001
+        return [(f"C16/refuse/{what}/wrong-error", f"{type(e).__name__}: {e}")]
+    if [_snapshot(a) for a in args] != snap or (T is not None and _t_snapshot(T) != tsnap):
+        return [(f"C16/refuse/{what}/changed-arguments", f"the refused call `{what}` modified its arguments (n={n}, m={m}, atoms={case.get('atoms')})")]
+    return []
+
+
+def _oracle_rigidapi(case):
+    """translate / rotate / rotate_centered / rotate_about_axis / orient_principal_components / align_vectors are rigid
+    motions: superimposing their result back onto the input gives RMSD ~ 0 with a proper rotation, the public rmsd()
+    agrees, and the input is not modified."""
+    import random
+    import numpy as np
+    import biotite.structure as struc
+    S = _mod()
+    r = random.Random(case["seed"])
+    n, sc = case["n"], case["scale"]
+    shape = (case["stack"], n, 3) if case["stack"] else (n, 3)
+    base = np.array([r.gauss(0, 1) for _ in range(int(np.prod(shape)))], dtype=np.float32).reshape(shape) * np.float32(sc)
+    X = _as_atoms(base.copy()) if case.get("atoms") else base.copy()
+    sp = {"list": list, "tuple": tuple, "ndarray": np.array, "f32": lambda v: np.array(v, dtype=np.float32),
+          "i64": lambda v: np.array(np.round(v), dtype=np.int64)}[case["spell"]]
+    vec = lambda k=1.0: sp([r.gauss(0, 1) * k + (0.5 if case["spell"] == "i64" else 0) for _ in range(3)])   # noqa: E731
+    nzvec = lambda: sp([r.choice([-2.0, -1.0, 1.0, 2.0, 3.0]) for _ in range(3)])   # noqa: E731
+    ang = r.uniform(-3.1, 3.1)
+    fn = case["fn"]
+    snap = _snapshot(X)
+    try:
+        if fn == "translate":
+            Y = struc.translate(X, vec(sc))
+        elif fn == "rotate":
+            Y = struc.rotate(X, sp([r.uniform(-3, 3) for _ in range(3)]))
+        elif fn == "rotate_centered":
+            Y = struc.rotate_centered(X, sp([r.uniform(-3, 3) for _ in range(3)]))
+        elif fn == "rotate_about_axis":
+            Y = struc.rotate_about_axis(X, nzvec(), np.float32(ang) if case["spell"] == "f32" else ang)
+        elif fn == "rotate_about_axis+support":
+            Y = struc.rotate_about_axis(X, nzvec(), ang, support=vec(sc))
+        elif fn == "orient_principal_components":
+            if case["stack"] or n < 3:
+                return []
+            Y = struc.orient_principal_components(X)
+        elif fn.startswith("align_vectors"):
+            a, b = nzvec(), nzvec()
+            a64, b64 = np.array(a, dtype=float), np.array(b, dtype=float)
+            antiparallel = np.allclose(np.cross(a64, b64), 0) and a64 @ b64 < 0
+            try:
+                if fn == "align_vectors":
+                    Y = struc.align_vectors(X, a, b)
+                else:
+                    Y = struc.align_vectors(X, a, b, origin_position=vec(sc), target_position=vec(sc))
+            except ValueError:
+                if antiparallel and _snapshot(X) == snap:
+                    return []            # exactly opposite directions: documented refusal (rotation axis undefined)
+                raise
+        else:
+            Y = struc.translate(struc.rotate_about_axis(struc.rotate(X, [0.3, -1.1, 2.0]), [1, 1, 0], ang), vec(sc))
+    except Exception as e:  # noqa: BLE001
+        return [(f"C16/rigid-motion/{fn}/unexpected-exception", f"{type(e).__name__}: {e} (arguments as {case['spell']}, shape {shape})")]
+    if _snapshot(X) != snap:
+        return [(f"C16/rigid-motion/{fn}/modified-input", f"{fn} modified its input (arguments as {case['spell']})")]
+    if type(Y) is not type(X) or S.coord(Y).shape != base.shape:
+        return [(f"C16/rigid-motion/{fn}/result-shape", f"{type(Y).__name__}{S.coord(Y).shape} for {type(X).__name__}{base.shape}")]
+    Yc = np.array(S.coord(Y), dtype=np.float32)
+    if not np.all(np.isfinite(Yc)):
+        return [(f"C16/rigid-motion/{fn}/non-finite", "result contains non-finite coordinates")]
+    # the motion is rigid: each model of Y superimposes onto the corresponding model of X with RMSD ~ 0
+    v = []
+    X3, Y3 = (base if base.ndim == 3 else base[None]), (Yc if Yc.ndim == 3 else Yc[None])
+    for k in range(X3.shape[0]):
+        fitted, T = S.superimpose(X3[k], Y3[k])
+        r0 = _rmsd64(X3[k], fitted)
+        tol = 4 * _tol(X3[k], Y3[k])
+        allowed = _allowed_rmsd(X3[k], Y3[k], 0.0, tol)
+        if r0 > allowed:
+            v.append((f"C16/rigid-motion/{fn}/not-rigid", f"model {k}: after {fn} (arguments as {case['spell']}) the best fit back onto the input "
+                      f"still has RMSD {r0:.4g} (allowed {allowed:.2g}, n={n}, extent {sc})"))
+            break
+        if abs(float(struc.rmsd(X3[k], fitted)) - r0) > tol:
+            v.append(("C16/rmsd/differs-from-definition", f"rmsd() = {float(struc.rmsd(X3[k], fitted)):.6g}, independent {r0:.6g}"))
+            break
+    return v
+
+
 def _oracle_exact(case):
     """Exact streams: as_matrix == apply and model-wise action on the real objects (exact inputs, tiny tolerance)."""
     v = []
@@ -1587,6 +1907,10 @@ def oracle(case):
         return _oracle_exact(case)
     if k == "homc":
         return _oracle_homc(case)
+    if k == "refuse":
+        return _oracle_refuse(case)
+    if k == "rigidapi":
+        return _oracle_rigidapi(case)
     return []
 
 
@@ -1600,6 +1924,8 @@ def nontrivial(case, impl_out):
         return True
     if k == "homc":
         return case.get("n_chains", 1) >= 2
+    if k in ("refuse", "rigidapi"):
+        return True
     if impl_out and any(o.startswith("ERR") for o in impl_out):
         return True
     return bool(impl_out) and any(len(o) > 12 for o in impl_out)
@@ -1608,6 +1934,8 @@ def nontrivial(case, impl_out):
 def signature(case):
     if case.get("ops"):
         return "|".join(case["ops"])
+    if "fixed" not in case:
+        return case.get("kind", "?") + repr(sorted((k, repr(v)[:80]) for k, v in case.items() if not k.startswith("_")))[:600]
     return case["kind"] + repr(case["fixed"])[:400] + repr(case["mobile"])[:400] + repr(case.get("mask"))
 
 
